@@ -403,6 +403,12 @@ def solve_many(queries, timeout_s=120, workdir=None, jobs=None):
             q.result = "unknown"
         else:
             q.result = r1
+        if q.result == "unsat":
+            # decided and nothing to diagnose: the text (gigabytes for the race relation of a large scenario) is not kept
+            try:
+                os.remove(q.smt2)
+            except OSError:
+                pass
         return q
     with ThreadPoolExecutor(max_workers=jobs or min(8, (os.cpu_count() or 8) // 2)) as ex:
         list(ex.map(work, queries))
